@@ -215,8 +215,8 @@ var _ = register("HC02_Swap", HC02_Swap)
 
 // HC02_Swap: Swap exchanges the two values completely.
 func HC02_Swap() {
-	g := MultiPolygonWF("g", AnyLayout("lay", Layouts), 2, 2, 1)
-	h2 := MultiPolygonWF("h", AnyLayout("lay2", Layouts), 1, 2, 2)
+	g := MultiPolygonWF("g", AnyLayout("lay", Layouts), 2, 1, 1)
+	h2 := MultiPolygonWF("h", AnyLayout("lay2", Layouts), 1, 1, 2)
 	h2.SetSRID(sym.Int("srid2", 0, 1<<31))
 	g.SetSRID(sym.Int("srid1", 0, 1<<31))
 	sg, sh := SnapOf(g), SnapOf(h2)
